@@ -32,46 +32,45 @@ Proof.
   destruct (aget (t_vals h) a) eqn:E2; [right; apply aget_keys; congruence|congruence].
 Qed.
 
-Lemma hpre_apre h t x o : R h t x -> J x -> hpre h t o = true -> a_pre x o = true.
+Lemma hpre_apre h t x o : R h t x -> J x -> hpre h t o = true ->
+  (forall a, o = ORemove a -> exists v, aget (vmap h) a = Some v /\ v_deleted v = false) ->
+  a_pre x o = true.
 Proof.
-  intros Rx HJ. destruct o; cbn [hpre a_pre]; try reflexivity.
+  intros Rx HJ Hp Hrm. destruct o; cbn [hpre a_pre] in *; try reflexivity.
   - auto.
   - now rewrite (r_xs _ _ _ Rx).
+  - destruct (Hrm a eq_refl) as (v & Hv & Hvd). rewrite Hv, Hvd in Hp. cbn in Hp. apply Nat.eqb_eq in Hp.
+    rewrite (r_xs _ _ _ Rx), (xpeek_live _ _ _ Hv Hvd). unfold absv, view. now rewrite Hp.
   - rewrite (r_xs _ _ _ Rx). destruct (xpeek h a) as [[v l]|]; [|auto].
     rewrite (r_accts _ _ _ Rx d). unfold tokl. destruct (aget (accts h) d); cbn; auto.
   - rewrite (r_revs _ _ _ Rx). destruct (aget (revs h) id) as [[aj vj]|]; auto.
-  - intros H. apply forallb_forall. intros [a y] Hin. cbn.
-    rewrite forallb_forall in H. apply (In_aget _ _ _ (J_sorted _ HJ)) in Hin.
-    assert (Hx : xpeek h a = Some y) by (rewrite <- (r_xs _ _ _ Rx); exact Hin).
-    specialize (H a (xpeek_universe h a ltac:(congruence))). rewrite Hx in H. destruct y. exact H.
-  - intros H. apply forallb_forall. intros [a y] Hin. cbn.
-    rewrite forallb_forall in H. apply (In_aget _ _ _ (J_sorted _ HJ)) in Hin.
-    assert (Hx : xpeek h a = Some y) by (rewrite <- (r_xs _ _ _ Rx); exact Hin).
-    specialize (H a (xpeek_universe h a ltac:(congruence))). rewrite Hx in H. destruct y. exact H.
 Qed.
 
 (* ---- one step -------------------------------------------------------------------- *)
 
 Theorem sim_step h t x o h' :
   wf h t -> R h t x -> J x -> hpre h t o = true -> step h o = Some h' ->
-  wf h' (taint_next h t o h') /\ R h' (taint_next h t o h') (a_step x o) /\ J (a_step x o).
+  wf h' (taint_next h t o h') /\ R h' (taint_next h t o h') (a_step_h h x o) /\ J (a_step_h h x o).
 Proof.
   intros W Rx HJ Hp Hs.
-  assert (HJ' : J (a_step x o)) by (apply J_step; [assumption|eapply hpre_apre; eauto]).
-  destruct o; cbn [taint_next].
+  assert (HJ' : J (a_step_h h x o)).
+  { destruct o; cbn [a_step_h]; try (apply J_step; [assumption|eapply hpre_apre; eauto; intros ? E; discriminate]).
+    destruct (aget (vmap h) a) as [v|] eqn:Hv; [|assumption]. destruct (v_deleted v) eqn:Hvd; [assumption|].
+    apply J_step; [assumption|]. eapply hpre_apre; eauto. intros a0 E. inversion E; subst a0. eauto. }
+  destruct o; cbn [taint_next a_step_h] in *.
   - destruct (sim_fund _ _ _ _ _ W Rx Hs); auto.
   - destruct (sim_create _ _ _ _ _ _ _ _ _ W Rx HJ Hs); auto.
   - destruct (sim_update _ _ _ _ _ _ W Rx HJ Hs); auto.
-  - destruct (sim_remove _ _ _ _ _ W Rx Hp Hs); auto.
+  - destruct (sim_remove _ _ _ _ _ W Rx HJ Hp Hs); auto.
   - destruct (sim_delegate _ _ _ _ _ _ _ W Rx HJ Hp Hs) as [A B]. auto.
   - destruct (sim_snapshot _ _ _ _ W Rx Hs); auto.
   - destruct (sim_revert _ _ _ _ _ W Rx HJ Hp Hs) as (A & B & C). rewrite C. auto.
   - destruct (sim_finalise _ _ _ _ W Rx Hs); auto.
   - destruct (sim_root _ _ _ _ W Rx HJ Hs); auto.
   - assert (HG : Good (core (a_root x))).
-    { assert (J (a_step x ORoot)) as (G & _) by (apply J_step; [assumption|eapply (hpre_apre h t x ORoot); eauto]). exact G. }
+    { assert (J (a_step x ORoot)) as (G & _) by (apply J_step; [assumption|reflexivity]). exact G. }
     destruct (sim_commit _ _ _ _ W Rx HJ HG Hs); auto.
-  - destruct (sim_copy _ _ _ _ W Rx HJ eq_refl Hs); auto.
+  - destruct (sim_copy _ _ _ _ W Rx HJ Hp Hs); auto.
   - destruct (sim_list _ _ _ _ W Rx HJ Hp Hs); auto.
 Qed.
 
@@ -79,13 +78,12 @@ Lemma wf_init : wf init 0.
 Proof.
   split.
   - constructor; cbn; try (intros; discriminate); try exact I; try constructor.
-    + intros v [[a H]|[]]; discriminate.
-    + intros v w [[a H]|[]]; discriminate.
-    + intros e [].
-    + intros a [].
+    all: try (intros v [[a H]|[]]; discriminate).
+    all: try (intros v w [[a H]|[]]; discriminate).
+    all: try (intros a []).
   - constructor; cbn; try (intros; discriminate); try exact I; try constructor.
-    + intros d prev [].
-    + intros e [].
+    all: try (intros d prev H; destruct H; fail).
+    all: try (intros e H; destruct H; fail).
 Qed.
 
 Lemma R_init : R init 0 ainit.
@@ -116,7 +114,7 @@ Lemma peek_wf h t a v l : wf h t -> peek h a = Some (v, l) -> has_nil l = false 
 Proof.
   intros [W _]. unfold peek. destruct (aget (vmap h) a) as [w|] eqn:Ew.
   - destruct (v_deleted w) eqn:Ed; [discriminate|]. intros H; inversion H; subst.
-    destruct (w_vmap _ _ W _ _ Ew) as [H1 H2]. split; [apply (H2 Ed)|exact H1].
+    destruct (w_vmap _ _ W _ _ Ew) as (H1 & H2 & _). split; [apply (H2 Ed)|exact H1].
   - destruct (aget (t_vals h) a) as [p|] eqn:Ep; [|discriminate].
     destruct (has_nil (p_dl p)) eqn:En; [discriminate|]. intros H; inversion H; subst.
     split; [exact En|apply (w_tvals _ _ W _ _ Ep)].
